@@ -337,11 +337,24 @@ def _bool_defs(cfg: CFG) -> dict:
     return out
 
 
+_COMPLEMENT = {ast.Is: ast.IsNot, ast.IsNot: ast.Is, ast.Eq: ast.NotEq, ast.NotEq: ast.Eq, ast.In: ast.NotIn, ast.NotIn: ast.In,
+               ast.Lt: ast.GtE, ast.GtE: ast.Lt, ast.Gt: ast.LtE, ast.LtE: ast.Gt}
+
+
+def _complement(a: ast.AST):
+    if isinstance(a, ast.Compare) and len(a.ops) == 1 and type(a.ops[0]) in _COMPLEMENT:
+        return ast.copy_location(ast.Compare(left=a.left, ops=[_COMPLEMENT[type(a.ops[0])]()], comparators=a.comparators), a)
+    return None
+
+
 def expanded_atoms(cfg: CFG, test: ast.AST, truth: bool, depth: int = 0):
     """atoms(test, truth) with single-definition boolean locals replaced by the facts of their defining expression"""
     defs = _bool_defs(cfg)
     for a, t in atoms(test, truth):
         yield a, t
+        comp = _complement(a)
+        if comp is not None:
+            yield comp, (not t)  # `x is None` false  ==  `x is not None` true: rules state a fact in either spelling
         if depth < 3 and isinstance(a, ast.Name) and a.id in defs:
             yield from expanded_atoms(cfg, defs[a.id], t, depth + 1)
         elif depth < 3 and isinstance(a, ast.Call) and isinstance(a.func, ast.Name) and a.func.id == "bool" and len(a.args) == 1:
